@@ -70,6 +70,24 @@ def fixed_specs():
         cells[kk('Data', 'A2', small)] = fn('SUM', ['rng', small, 'Data', 'B1:B2'])
         cells[kk('Data', 'A3', small)] = op('+', ['cell', big, 'Data', 'A7'], ['cell', big, 'Data', 'A8'])
         out[tag] = {'cells': cells, 'arrays': {}, 'names': {}, 'sheets': [[small, 'Data'], [big, 'Data']], 'home': small}
+    # array formulas whose result shape is not the shape of their range (row into column, 2x3 block into 3x2), with readers of exactly
+    # that range and of single cells; the readers sort before AND after the array formula, and every insertion order is tried
+    out['array-misfit'] = {
+        'cells': {K('S', 'B1'): const(('n', 1.0)), K('S', 'C1'): const(('n', 2.0)), K('S', 'D1'): const(('n', 3.0)), K('S', 'E1'): const(('n', 4.0)),
+                  K('S', 'A1'): fn('SUM', rng('S', 'G1:G4')), K('S', 'H5'): fn('SUM', rng('S', 'G1:G4')), K('S', 'H6'): op('+', cell('S', 'G4'), num(1))},
+        'arrays': {K('S', 'G1:G4'): op('*', rng('S', 'B1:E1'), num(5))}, 'names': {}, 'sheets': [[B, 'S']]}
+    out['array-misfit-block'] = {
+        'cells': {K('S', 'B1'): const(('n', 1.0)), K('S', 'C1'): const(('n', 2.0)), K('S', 'D1'): const(('n', 3.0)),
+                  K('S', 'B2'): const(('n', 4.0)), K('S', 'C2'): const(('n', 5.0)), K('S', 'D2'): const(('n', 6.0)),
+                  K('S', 'A1'): fn('SUM', rng('S', 'G1:H3')), K('S', 'J5'): fn('COUNT', rng('S', 'G1:H3')), K('S', 'J6'): fn('ISERROR', cell('S', 'H3'))},
+        'arrays': {K('S', 'G1:H3'): op('+', rng('S', 'B1:D2'), num(0))}, 'names': {}, 'sheets': [[B, 'S']]}
+    # numeric external links: the link table of the home book lists books that cannot be loaded before and after the real one
+    for tag, table in (('numeric-links', ['legacy.xls', C, 'gone.xlsx']), ('numeric-links-first', [C, 'legacy.xls']), ('numeric-links-last', ['gone.xlsx', 'old.xlsb', C])):
+        out[tag] = {
+            'cells': {K('S', 'A1'): const(('n', 1.0)), K('S', 'B1'): op('+', cell('U', 'A1', C), cell('S', 'A1')), K('S', 'B2'): fn('SUM', rng('U', 'A1:A2', C)),
+                      K('S', 'B3'): op('*', cell('U', 'B1', C), num(2)),
+                      K('U', 'A1', C): const(('n', 7.0)), K('U', 'A2', C): const(('n', 8.0)), K('U', 'B1', C): op('+', cell('U', 'A1', C), cell('U', 'A2', C))},
+            'arrays': {}, 'names': {}, 'sheets': [[B, 'S'], [C, 'U']], 'links': {B: table}, 'home': B, 'file_only': True}
     # the same sheet name in two books
     out['same-sheet-name'] = {
         'cells': {K('S', 'A1'): const(('n', 1.0)), K('S', 'B1'): op('+', cell('S', 'A1'), cell('S', 'A1', C)), K('S', 'A1', C): const(('n', 100.0)),
@@ -247,6 +265,10 @@ def sched_cases(tier):
     for name, sp in fixed_specs().items():
         if sp.get('slow'):
             yield {'k': 'wb', 'fixed': name, 'paths': ['file']}
+            continue
+        if sp.get('file_only'):
+            yield {'k': 'wb', 'fixed': name, 'paths': ['file']}
+            yield {'k': 'wb', 'fixed': name, 'paths': ['file'], 'sched': 'files'}
             continue
         yield {'k': 'wb', 'fixed': name, 'paths': ['dict', 'file']}
         yield {'k': 'wb', 'fixed': name, 'paths': ['dict'], 'sched': 'dict', 'full': False}
